@@ -21,5 +21,7 @@ def run(ctx, res):
                 "the cli.* scheduling points are released fifo (quiescent stepping) or by a seeded schedule; every log is "
                 "replayed through the Coq client model (projection c04: records sent, values returned, OnNotify/OnCallback "
                 "invocations, parked goroutines per point, pending count) and judged by the monitors (ids fresh, reply is the "
-                "peer's for that id, batch order, one return per operation, channel discipline); non-trivial = distinct log in "
-                "which a request was completed by a peer payload")
+                "peer's for that id, batch order, one return per operation, channel discipline); every 6th scenario (outside "
+                "the exhaustive range) runs in racing mode (no scheduler, hook points and the client's Logger yield, actions "
+                "back to back without quiescence) and is judged by the monitors and crash / hang / leak detection only; "
+                "non-trivial = distinct log in which a request was completed by a peer payload")
